@@ -18,6 +18,7 @@ after creation.
 """
 
 from copy import copy, deepcopy
+from numbers import Real
 from typing import TYPE_CHECKING, Any, Union
 
 import matplotlib.pyplot as plt
@@ -636,7 +637,7 @@ class Circuit:
         if isinstance(mode, Parameter):
             raise TypeError("Mode values cannot be parameters.")
         # Catch this separately as bool is subclass of int
-        if isinstance(mode, bool):
+        if isinstance(mode, bool | np.bool_):
             raise TypeError("Mode number should be an integer.")
         if not isinstance(mode, int):
             if int(mode) != mode:
@@ -653,7 +654,11 @@ class Circuit:
         Maps a provided mode to the corresponding internal mode
         """
         # Whole numbers of other numeric types are valid modes, store as int
-        if isinstance(mode, np.integer | float) and float(mode).is_integer():
+        if (
+            isinstance(mode, Real)
+            and not isinstance(mode, bool)
+            and float(mode).is_integer()
+        ):
             mode = int(mode)
         for i in sorted(self.__internal_modes):
             if mode >= i:
